@@ -180,12 +180,12 @@ Definition halted (w : world) : bool :=
 (* after a panic (or fuel exhaustion) nothing further is observed *)
 Definition step_action (w : world) (a : action) : world :=
   if halted w then w else
-  let w1 := run_action a (upd_log w (s2t "#")) in
+  let w1 := run_action a (upd_waits (upd_log w (s2t "#")) 0) in
   if halted w1 then w1 else upd_log w1 (show_state w1).
 
 Definition init_world (c : case) : world :=
   {| w_sess := session_new (c_cfg c); w_conn := false; w_live := false; w_event := 0; w_now := 0; w_inq := [];
-     w_last_arrival := 0; w_txbuf := []; w_script := c_script c; w_broker := 0; w_log := []; w_handles := [] |}.
+     w_last_arrival := 0; w_txbuf := []; w_script := c_script c; w_broker := 0; w_log := []; w_handles := []; w_waits := 0 |}.
 
 Definition run_case (c : case) : world := fold_left step_action (c_prog c) (init_world c).
 
